@@ -141,6 +141,21 @@ struct Plan {
     plain: bool,
     queries: Vec<(String, u8)>,
     concurrent: bool,
+    /// TTL of every record the servers hand out
+    #[serde(default = "default_ttl")]
+    ttl: u32,
+    /// pause between sequential questions and before the second phase (cache expiry)
+    #[serde(default)]
+    gap_ms: u64,
+    /// servers that answer over UDP with TC set and nothing else (the answer comes over TCP)
+    #[serde(default)]
+    truncate_udp: Vec<usize>,
+    #[serde(default)]
+    case_randomization: bool,
+}
+
+fn default_ttl() -> u32 {
+    300
 }
 
 fn qtype_of(t: u8) -> RecordType {
@@ -168,6 +183,7 @@ struct World {
     /// every NS target host name of the world
     ns_hosts: BTreeSet<String>,
     chase_in_zone: bool,
+    ttl: u32,
 }
 
 impl World {
@@ -186,7 +202,7 @@ impl World {
                 }
             }
         }
-        let mut w = Self { zones: p.zones.clone(), origins, hosted, delegated, data: vec![BTreeMap::new(); p.zones.len()], ns_hosts: p.zones.iter().flat_map(|z| z.ns.iter().map(|e| key(&n(&e.host)))).collect(), chase_in_zone: p.chase_in_zone };
+        let mut w = Self { zones: p.zones.clone(), origins, hosted, delegated, data: vec![BTreeMap::new(); p.zones.len()], ns_hosts: p.zones.iter().flat_map(|z| z.ns.iter().map(|e| key(&n(&e.host)))).collect(), chase_in_zone: p.chase_in_zone, ttl: p.ttl };
         for zi in 0..w.zones.len() {
             let o = w.origins[zi].clone();
             let soa = RData::SOA(SOA::new(n(&format!("ns.{}", w.zones[zi].origin)), n("admin."), 1, 3600, 600, 86400, 300));
@@ -297,13 +313,13 @@ impl World {
             if self.origins[c].zone_of(&qname) {
                 let co = self.origins[c].clone();
                 for e in &self.zones[c].ns {
-                    m.add_authority(Record::from_rdata(co.clone(), 300, RData::NS(NS(n(&e.host)))));
+                    m.add_authority(Record::from_rdata(co.clone(), self.ttl, RData::NS(NS(n(&e.host)))));
                     match self.zones[c].glue {
                         0 => {
-                            m.add_additional(Record::from_rdata(n(&e.host), 300, RData::A(A(server_ip(e.server)))));
+                            m.add_additional(Record::from_rdata(n(&e.host), self.ttl, RData::A(A(server_ip(e.server)))));
                         }
                         2 => {
-                            m.add_additional(Record::from_rdata(n(&e.host), 300, RData::A(A(DEAD_IP))));
+                            m.add_additional(Record::from_rdata(n(&e.host), self.ttl, RData::A(A(DEAD_IP))));
                         }
                         _ => {}
                     }
@@ -313,21 +329,21 @@ impl World {
         }
         m.metadata.authoritative = true;
         let zo = self.origins[z].clone();
-        let soa = || Record::from_rdata(zo.clone(), 300, self.data[z][&key(&zo)][&u16::from(RecordType::SOA)][0].clone());
+        let soa = || Record::from_rdata(zo.clone(), self.ttl, self.data[z][&key(&zo)][&u16::from(RecordType::SOA)][0].clone());
         let at = self.data[z].get(&key(&qname));
         let qt = u16::from(q.query_type);
         let cn = u16::from(RecordType::CNAME);
         match at {
             Some(sets) if sets.contains_key(&qt) => {
                 for rd in &sets[&qt] {
-                    m.add_answer(Record::from_rdata(q.name.clone(), 300, rd.clone()));
+                    m.add_answer(Record::from_rdata(q.name.clone(), self.ttl, rd.clone()));
                 }
                 if q.query_type == RecordType::NS {
                     for rd in &sets[&qt] {
                         if let RData::NS(NS(h)) = rd {
                             if let Some(a) = self.data[z].get(&key(h)).and_then(|s| s.get(&u16::from(RecordType::A))) {
                                 for rd in a {
-                                    m.add_additional(Record::from_rdata(h.clone(), 300, rd.clone()));
+                                    m.add_additional(Record::from_rdata(h.clone(), self.ttl, rd.clone()));
                                 }
                             }
                         }
@@ -339,7 +355,7 @@ impl World {
                 let mut cur = sets[&cn][0].clone();
                 let mut hops = 0;
                 loop {
-                    m.add_answer(Record::from_rdata(owner.clone(), 300, cur.clone()));
+                    m.add_answer(Record::from_rdata(owner.clone(), self.ttl, cur.clone()));
                     let RData::CNAME(CNAME(t)) = &cur else { break };
                     hops += 1;
                     if !self.chase_in_zone || hops > 4 || !zo.zone_of(t) || self.children(z).iter().any(|c| self.origins[*c].zone_of(t)) {
@@ -348,7 +364,7 @@ impl World {
                     let Some(tsets) = self.data[z].get(&key(t)) else { break };
                     if let Some(v) = tsets.get(&qt) {
                         for rd in v {
-                            m.add_answer(Record::from_rdata(t.clone(), 300, rd.clone()));
+                            m.add_answer(Record::from_rdata(t.clone(), self.ttl, rd.clone()));
                         }
                         break;
                     }
@@ -492,6 +508,10 @@ fn gen_plan(seed: u64) -> Plan {
         plain,
         queries: vec![],
         concurrent: r.chance(1, 2),
+        ttl: *r.pick(&[300u32, 300, 5, 1, 0]),
+        gap_ms: *r.pick(&[0u64, 0, 1500, 7000]),
+        truncate_udp: vec![],
+        case_randomization: r.chance(1, 5),
     };
     if plain {
         plan.recursion_limit = 24;
@@ -535,6 +555,9 @@ fn gen_plan(seed: u64) -> Plan {
         if r.chance(1, 6) {
             let s = 1 + r.usize_below(n_servers - 1);
             plan.deny_servers.push(s);
+        }
+        if r.chance(1, 5) {
+            plan.truncate_udp.push(r.usize_below(n_servers));
         }
         if r.chance(1, 8) {
             plan.deny_answer_zone = Some(1 + r.usize_below(plan.zones.len() - 1));
@@ -590,7 +613,7 @@ impl Part for RecursorPart {
         let mut p: Plan = serde_json::from_value(plan.clone()).expect("plan");
         p.sim.trace = trace;
         let hostile = p.servers.iter().filter(|s| !s.inject.is_empty()).count() as u64;
-        let mut sig = mix(p.zones.len() as u64 ^ (p.servers.len() as u64) << 4 ^ hostile << 8 ^ (p.recursion_limit as u64) << 12 ^ (p.ns_recursion_limit as u64) << 20 ^ (p.relaxed_qmin as u64) << 28 ^ (p.concurrent as u64) << 29 ^ (p.plain as u64) << 30);
+        let mut sig = mix(p.zones.len() as u64 ^ (p.servers.len() as u64) << 4 ^ hostile << 8 ^ (p.recursion_limit as u64) << 12 ^ (p.ns_recursion_limit as u64) << 20 ^ (p.relaxed_qmin as u64) << 28 ^ (p.concurrent as u64) << 29 ^ (p.plain as u64) << 30 ^ (p.ttl as u64) << 32 ^ (p.gap_ms) << 44 ^ (p.truncate_udp.len() as u64) << 58 ^ (p.case_randomization as u64) << 60);
         for z in &p.zones {
             sig = mix(sig ^ z.glue as u64 ^ (z.ns.len() as u64) << 2 ^ (z.ns.iter().filter(|e| e.lame).count() as u64) << 4 ^ (z.recs.len() as u64) << 6 ^ mix(z.origin.len() as u64));
         }
@@ -686,6 +709,26 @@ impl Part for RecursorPart {
             q.small_caches = false;
             out.push(q);
         }
+        if p.gap_ms != 0 {
+            let mut q = p.clone();
+            q.gap_ms = 0;
+            out.push(q);
+        }
+        if p.ttl != 300 {
+            let mut q = p.clone();
+            q.ttl = 300;
+            out.push(q);
+        }
+        if !p.truncate_udp.is_empty() {
+            let mut q = p.clone();
+            q.truncate_udp.clear();
+            out.push(q);
+        }
+        if p.case_randomization {
+            let mut q = p.clone();
+            q.case_randomization = false;
+            out.push(q);
+        }
         if p.sim.policy != hsim::SchedPolicy::Fifo {
             let mut q = p.clone();
             q.sim.policy = hsim::SchedPolicy::Fifo;
@@ -743,20 +786,20 @@ async fn scenario(p: Plan) {
                     let mut recs: Vec<Record> = Vec::new();
                     let mut extra: Vec<Record> = Vec::new();
                     match inj.kind {
-                        0 => recs.push(Record::from_rdata(owner, 300, RData::A(A(marker_ip(k, j))))),
+                        0 => recs.push(Record::from_rdata(owner, p.ttl, RData::A(A(marker_ip(k, j))))),
                         1 => {
                             let host = n(&format!("ns{j}.evil{k}.attacker."));
-                            recs.push(Record::from_rdata(owner, 300, RData::NS(NS(host.clone()))));
-                            extra.push(Record::from_rdata(host, 300, RData::A(A(marker_ip(k, j)))));
+                            recs.push(Record::from_rdata(owner, p.ttl, RData::NS(NS(host.clone()))));
+                            extra.push(Record::from_rdata(host, p.ttl, RData::A(A(marker_ip(k, j)))));
                         }
-                        2 => recs.push(Record::from_rdata(owner, 300, RData::CNAME(CNAME(n(&format!("pwned{j}.evil{k}.attacker.")))))),
+                        2 => recs.push(Record::from_rdata(owner, p.ttl, RData::CNAME(CNAME(n(&format!("pwned{j}.evil{k}.attacker.")))))),
                         _ => {
                             // attacker host inside the injector's own (first hosted) zone
                             let home = world.hosted[k].iter().next().map(|z| world.zones[*z].origin.clone()).unwrap_or_else(|| ".".into());
                             let home = if home == "." { String::new() } else { home };
                             let host = n(&format!("evilns{j}.{home}"));
-                            recs.push(Record::from_rdata(owner, 300, RData::NS(NS(host.clone()))));
-                            extra.push(Record::from_rdata(host, 300, RData::A(A(tainted_ip(k, j)))));
+                            recs.push(Record::from_rdata(owner, p.ttl, RData::NS(NS(host.clone()))));
+                            extra.push(Record::from_rdata(host, p.ttl, RData::A(A(tainted_ip(k, j)))));
                         }
                     }
                     for r in recs {
@@ -806,6 +849,7 @@ async fn scenario(p: Plan) {
             let respond = respond.clone();
             let fault = k.map(|k| p.servers[k].fault).unwrap_or(0);
             let lat = k.map(|k| p.servers[k].latency_ms).unwrap_or(1) as u64;
+            let truncating = k.map(|k| p.truncate_udp.contains(&k)).unwrap_or(false);
             net::udp_node(addr, move |dg| {
                 let Ok(req) = Message::from_vec(&dg.bytes) else { return vec![] };
                 {
@@ -821,6 +865,16 @@ async fn scenario(p: Plan) {
                     return vec![];
                 }
                 let bytes = match k {
+                    Some(k) if truncating => {
+                        exec::count("fault.udp_truncated");
+                        let mut m = Message::response(req.metadata.id, OpCode::Query);
+                        for q in &req.queries {
+                            m.add_query(q.clone());
+                        }
+                        m.metadata.truncation = true;
+                        let _ = k;
+                        m.to_vec().ok()
+                    }
                     Some(k) => respond(k, &req),
                     None => evil(&req),
                 };
@@ -890,6 +944,7 @@ async fn scenario(p: Plan) {
     let mut opts = RecursorOptions::default();
     opts.recursion_limit = p.recursion_limit;
     opts.ns_recursion_limit = p.ns_recursion_limit;
+    opts.case_randomization = p.case_randomization;
     opts.qname_minimization = if p.relaxed_qmin { QNameMinimization::Relaxed } else { QNameMinimization::Strict };
     if p.small_caches {
         opts.ns_cache_size = 2;
@@ -1055,6 +1110,9 @@ async fn scenario(p: Plan) {
         }
     } else {
         for (name, t) in p.queries.iter().cloned() {
+            if p.gap_ms != 0 {
+                exec::sleep_ns(p.gap_ms * MS).await;
+            }
             if exec::timeout(limit, ask(name, t, 1)).await.is_err() {
                 exec::violate("C19.no-termination", "pending", "a resolution was still pending after 30 simulated minutes".into());
                 return;
@@ -1063,6 +1121,9 @@ async fn scenario(p: Plan) {
     }
     // ---- phase 2: every server honest, ask for the victims --------------------------------------
     honest_phase.set(true);
+    if p.gap_ms != 0 {
+        exec::sleep_ns(p.gap_ms * MS).await;
+    }
     let mut victims: Vec<(String, u8)> = Vec::new();
     for s in &p.servers {
         for i in &s.inject {
